@@ -34,6 +34,7 @@ inductive Action where
   | timeOfFloat
   | timeOfInt
   | timeParseKeep
+  | convStrict (t : NumT)           -- not in the source: the repaired form of `conv` (range / finiteness checked, else err + nil)
   deriving DecidableEq, Repr, Inhabited
 
 structure Table where
@@ -204,6 +205,20 @@ def applyAction (ext : Ext F) (a : Action) (v : GoVal F) : GoVal F × Bool :=
                   | some t => (.time t, false)
                   | none => (v, true))
      | _ => (v, false))
+  | .convStrict t =>
+    (match t, v with
+     | .i32, .int _ n => if inRange32 n then (.int .i32 n, false) else (.nil, true)
+     | .i64, .int _ n => if inRange64 n then (.int .i64 n, false) else (.nil, true)
+     | .i32, .flt _ x => (match ext.toIntExact x with
+                          | some n => if inRange32 n then (.int .i32 n, false) else (.nil, true)
+                          | none => (.nil, true))
+     | .i64, .flt _ x => (match ext.toIntExact x with
+                          | some n => if inRange64 n then (.int .i64 n, false) else (.nil, true)
+                          | none => (.nil, true))
+     | t, v =>
+       (match convTo ext t v with
+        | .flt k x => if ext.isFinite x then (.flt k x, false) else (.nil, true)
+        | r => (r, false)))
 
 def Table.armFor (tbl : Table) (k : Kind) : Action :=
   match tbl.arms.find? (fun p => p.1 == k) with
